@@ -5,7 +5,7 @@
    (one `Environment::handle_event` each; `ETerminate p` marks the moment p really terminates on its
    worker); `new_calls s e` are the EffectBackend calls made while handling e in state s.
    Every theorem quantifies over EVERY event sequence (every interleaving of every program).
-   The classes KnownF10 / KnownF47 / KnownF48 / KnownF49 are the confirmed defects of the code as it
+   The classes KnownF10 / KnownF47 / KnownF49 are the confirmed defects of the code as it
    is (known_findings.json); each excluded statement comes with its `_refuted` witness, which is the
    trace of a real run. *)
 From Coq Require Import List NArith Bool.
@@ -20,17 +20,23 @@ Theorem C14_owner_map_is_function : forall h r p q,
 Proof. exact owner_map_is_function. Qed.
 Print Assumptions C14_owner_map_is_function.
 
-(* after a send carrying r — at any depth below tuples and closures — the owner is the recipient;
-   nothing else changes *)
+(* after a send carrying r — at any depth below tuples and closures — the owner of an open
+   (registered) resource is the recipient; an id that is not registered stays unregistered; nothing
+   else changes *)
 Theorem C14_single_owner_after_send : forall h sender target v r,
-  (carries r v -> lookup r (owner (run (h ++ [ESend sender target v]))) = Some target) /\
+  (carries r v -> lookup r (owner (run h)) <> None ->
+     lookup r (owner (run (h ++ [ESend sender target v]))) = Some target) /\
+  (carries r v -> lookup r (owner (run h)) = None ->
+     lookup r (owner (run (h ++ [ESend sender target v]))) = None) /\
   (~ carries r v -> lookup r (owner (run (h ++ [ESend sender target v]))) = lookup r (owner (run h))).
 Proof. exact owner_after_send. Qed.
 Print Assumptions C14_single_owner_after_send.
 
 Theorem C14_single_owner_after_spawn : forall h caller vals r,
-  ((exists v, In v vals /\ carries r v) ->
+  ((exists v, In v vals /\ carries r v) -> lookup r (owner (run h)) <> None ->
      lookup r (owner (run (h ++ [ESpawn caller vals]))) = Some (next_pid (run h))) /\
+  ((exists v, In v vals /\ carries r v) -> lookup r (owner (run h)) = None ->
+     lookup r (owner (run (h ++ [ESpawn caller vals]))) = None) /\
   ((forall v, In v vals -> ~ carries r v) ->
      lookup r (owner (run (h ++ [ESpawn caller vals]))) = lookup r (owner (run h))).
 Proof. exact owner_after_spawn. Qed.
@@ -103,16 +109,12 @@ Theorem C14_not_closed_while_owner_alive : forall h e r,
 Proof. exact not_closed_while_owner_alive. Qed.
 Print Assumptions C14_not_closed_while_owner_alive.
 
+(* unconditional since the repair of F48 (a stale handle is not registered again); the only
+   hypothesis is the backend's: it never hands out the same id twice *)
 Theorem C14_closed_at_most_once : forall h,
-  backend_fresh h -> ~ KnownF48 h -> NoDup (closes (log (run h))).
+  backend_fresh h -> NoDup (closes (log (run h))).
 Proof. exact closed_at_most_once. Qed.
 Print Assumptions C14_closed_at_most_once.
-
-Theorem C14_closed_at_most_once_unconditional_refuted :
-  exists h, reports_only_terminated h /\ backend_fresh h /\ KnownF48 h /\
-            ~ NoDup (closes (log (run h))).
-Proof. exact closed_at_most_once_unconditional_refuted. Qed.
-Print Assumptions C14_closed_at_most_once_unconditional_refuted.
 
 (* when the environment learns that p terminated, everything p owns is closed, and p owns nothing *)
 Theorem C14_cleanup_closes_everything : forall h done p r,
@@ -164,7 +166,7 @@ Print Assumptions C14_log_extends.
 
 Theorem C14_nonvacuity :
   reports_only_terminated good_history /\ backend_fresh good_history /\
-  ~ KnownF47 good_history /\ ~ KnownF48 good_history /\ ~ KnownF49 good_history /\
+  ~ KnownF47 good_history /\ ~ KnownF49 good_history /\
   ~ KnownF10 good_history 2 1 /\ In 2 (dead (run good_history)) /\
   closes (log (run good_history)) = [1] /\
   log (run good_history) = [CExec 0 (Open 1); CExec 1 (Op 1 0); CExec 2 (Op 1 0); CClose 1].
